@@ -16,9 +16,9 @@ func init() {
 		Explanation: "Decided: R06-guard — every call of threadRun(th) (coroutine.resume, LState.Resume) is dominated by the running-thread and dead-thread tests on that same thread with non-continuing arms ('a dead or running coroutine is never resumed'), and the resumer is recorded (Parent, CurrentThread) before the switch; " +
 			"R06-release — in threadRun's deferred closure every arm taken when a panic was recovered and a resumer exists kills the thread and hands control back (switchToParentThread(…, kill=true) or the equivalent stores) before it re-raises or returns: the wrapped and plain arms must agree ('an error inside a coroutine kills only that coroutine … leaving the resumer's own state untouched'); " +
 			"R06-killarg — constant arguments of every switchToParentThread call: kill=false only at the yield site (dominated by a negative host-function result), true at body termination and on error; haserror=true only in threadRun; switchToParentThread restores CurrentThread and clears Parent on every path; Status derives its four answers from Dead / CurrentThread / Parent in that priority. " +
-			"NOT decided: payload transfer counts/order, register offsets in switchToParentThread, per-thread state isolation.",
+			"R06-resumeapi — the Go-side Resume removes what the coroutine handed over from the resumer's stack on every return path (SetTop(top) with the top taken before the switch), so a failed or yielding coroutine leaves the resumer's own stack untouched. NOT decided: payload transfer counts/order, register offsets in switchToParentThread, per-thread state isolation.",
 		Trusted: []string{},
-		Rules:   []func(*Ctx){ruleResumeGuard, ruleRelease, ruleKillArg},
+		Rules:   []func(*Ctx){ruleResumeGuard, ruleRelease, ruleKillArg, ruleResumeApi, ruleDeadThreadPush},
 	})
 }
 
@@ -204,7 +204,7 @@ func ruleKillArg(c *Ctx) {
 					if b, ok := cd.V.(*ssa.BinOp); ok {
 						pm, isP := b.X.(*ssa.Parameter)
 						k, isC := b.Y.(*ssa.Const)
-						if isP && isC && k.IsNil() && pm.Name() == "baseframe" {
+						if isP && isC && k.IsNil() && len(paramsOfType(fn, "*callFrame")) == 1 && pm == paramsOfType(fn, "*callFrame")[0] {
 							if (b.Op == token.NEQ && !cd.Sense) || (b.Op == token.EQL && cd.Sense) {
 								baseOnly = true
 							}
@@ -258,7 +258,7 @@ func ruleKillArg(c *Ctx) {
 	okKill := false
 	for _, cl := range callsTo(sw, killFn) {
 		for _, cd := range g.CondsAtInstr(cl) {
-			if pm, ok := cd.V.(*ssa.Parameter); ok && pm.Name() == "kill" && cd.Sense {
+			if pm, ok := cd.V.(*ssa.Parameter); ok && cd.Sense && len(paramsOfType(sw, "bool")) == 2 && pm == paramsOfType(sw, "bool")[1] { // (L, nargs, haserror, kill)
 				okKill = true
 			}
 		}
@@ -325,4 +325,45 @@ func ruleKillArg(c *Ctx) {
 		}
 		c.check(okS, R, "Status:table", p.pos(fn.Pos()), "dead ← Dead, running ← CurrentThread, normal ← Parent, suspended otherwise", fmt.Sprintf("coroutine.status derives its answers differently: %v", got))
 	}
+}
+
+
+// ruleResumeApi: LState.Resume receives (ok, values…) on the resumer's stack from switchToParentThread,
+// copies them out and must drop them again: every return after threadRun passes SetTop(top), top being
+// the stack height read before the switch.
+func ruleResumeApi(c *Ctx) {
+	const R = "R06-resumeapi"
+	c.floor(R, 1)
+	p := c.P
+	fn := c.need(R, "lua", "(*LState).Resume")
+	if fn == nil {
+		return
+	}
+	g := p.G(fn)
+	run := p.Fn("lua", "threadRun")
+	setTop := p.Fn("lua", "(*LState).SetTop")
+	getTop := p.Fn("lua", "(*LState).GetTop")
+	runs := callsTo(fn, run)
+	if len(runs) != 1 {
+		c.und(R, "Resume:threadRun", p.pos(fn.Pos()), "expected exactly one threadRun call in Resume")
+		return
+	}
+	isRestore := func(in ssa.Instruction) bool {
+		if !isCallTo(in, setTop) {
+			return false
+		}
+		cl := in.(*ssa.Call)
+		if cl.Call.Args[0] != fn.Params[0] {
+			return false
+		}
+		tv, ok := stripConv(cl.Call.Args[1]).(*ssa.Call)
+		return ok && tv.Call.StaticCallee() == getTop && tv.Call.Args[0] == fn.Params[0] && g.Dominates(tv, runs[0])
+	}
+	b, i := after(runs[0])
+	okc, witness := g.MustPassBefore(b, i, isRestore, isReturn)
+	pos := p.ipos(runs[0])
+	if witness != nil {
+		pos = p.ipos(witness)
+	}
+	c.check(okc, R, "Resume:restores-resumer-stack", pos, "every return after the switch passes SetTop(top)", "LState.Resume can return without dropping the values the coroutine handed over (SetTop(top) is skipped on a path): after a failed resume the resumer's stack keeps (false, error) — GetTop() and positive indices of the calling host function are off by two, repeated failures overflow the registry")
 }
